@@ -17,7 +17,7 @@ def sh(cmd, cwd=None, env=None, timeout=1800):
     return p.returncode, p.stdout
 
 def main():
-    pid, src, name = sys.argv[1], sys.argv[2], sys.argv[3]
+    pid, src, name = sys.argv[1], os.path.abspath(sys.argv[2]), sys.argv[3]
     others = sys.argv[4:]
     wt = "/tmp/ev/" + name
     shutil.rmtree(wt, ignore_errors=True)
@@ -69,6 +69,9 @@ def main():
         sh("git -C /repo worktree remove --force %s" % wt)
         shutil.rmtree(wt, ignore_errors=True)
     dst = os.path.join(ROOT, "seeded", name)
+    if not meta.get("patch_applies"):
+        print(name, "patch did not apply - nothing recorded")
+        return
     os.makedirs(dst, exist_ok=True)
     oldp = os.path.join(dst, "meta.json")
     if os.path.exists(oldp):
